@@ -20,8 +20,8 @@ RULE = ("values: (i) exhaustive enumeration of all JSON trees with <= 2 nodes (q
         "content. distinct = (class, entry point, value) triple; non-trivial = every triple.")
 ASSUMPTIONS = [
     "the fakes do not emulate server-side limits (MongoDB 64-bit integers, Redis value size)",
-    "entry points are exercised on positions without ==-equal differently-typed old content (that interaction "
-    "is the known finding KF-TYPE, decided under C01-C05)",
+    "reset_over / update_over store the value over existing content of equal size with other keys and over "
+    "==-equal values of another JSON type (1 / True / 1.0)",
 ]
 SHARD_TIMEOUT = {"quick": 600, "thorough": 3600}
 
@@ -84,9 +84,9 @@ def random_tree(r, depth, keys, budget):
 
 
 DICT_ENTRIES = ["ctor", "setitem", "setdefault", "update_mapping", "update_pairs", "update_kwargs", "reset",
-                "nested_setitem", "nested_append"]
+                "nested_setitem", "nested_append", "reset_over", "update_over"]
 LIST_ENTRIES = ["ctor", "setitem", "slice", "append", "extend", "insert", "iadd", "reset", "nested_setitem",
-                "nested_append"]
+                "nested_append", "reset_over"]
 
 
 def store(info, res, entry, value):
@@ -105,6 +105,16 @@ def store(info, res, entry, value):
                 return {"n": {"p": value}, "l": ["old"]}
             obj["l"].append(v)
             return {"n": {"p": "old"}, "l": ["old", value]}
+        if entry in ("reset_over", "update_over"):
+            # over existing content of the same size with other keys, and over an ==-equal value of another type
+            res.outside_write({"o1": "old", "o2": ["old"], "v": 1, "t": True}, bump=False)
+            obj = res.new_handle()
+            obj()
+            if entry == "reset_over":
+                obj.reset({"v": v, "w": 1, "x": [2], "t": 1.0})
+                return {"v": value, "w": 1, "x": [2], "t": 1.0}
+            obj.update({"v": v, "t": 1})
+            return {"o1": "old", "o2": ["old"], "v": value, "t": 1}
         obj = res.new_handle()
         if entry == "setitem":
             obj["v"] = v
@@ -131,6 +141,12 @@ def store(info, res, entry, value):
             return [{"p": value}, ["old"]]
         obj[1].append(v)
         return [{"p": "old"}, ["old", value]]
+    if entry == "reset_over":
+        res.outside_write([1, "old", ["old"], True], bump=False)
+        obj = res.new_handle()
+        obj()
+        obj.reset([v, "n", [2], 1.0])
+        return [value, "n", [2], 1.0]
     if entry in ("setitem", "slice"):
         res.outside_write(["old", "tail"], bump=False)
     obj = res.new_handle()
